@@ -24,6 +24,7 @@ TOL_GEO = 1e-9   # closed-form float arithmetic (DESIGN 2.4), relative to a unit
 BAD = (99, 99, 99)
 DX, DY = 1.0, 0.6
 X0, Y0 = 0.25, -0.5
+RING_SEGMENTS = tuple(range(3, 13))  # n_segments of Annulus / ExtrudedRing / RevolvedRing (Appendix E: 3..12)
 
 
 def _np():
@@ -375,6 +376,72 @@ def oracle_delete(spec, ob):
     return why
 
 
+def parse_written(text, lat):
+    """The hex entries of a written blockMeshDict, each located on the lattice by the centre of the 8
+    vertices it names (the harness' own reader; independent of the library's writer)."""
+    np = _np()
+    mv = re.search(r"\nvertices\s*\((.*?)\n\);", text, flags=re.S)
+    mb = re.search(r"\nblocks\s*\((.*?)\n\);", text, flags=re.S)
+    if not mv or not mb:
+        raise GenError("cannot find the vertices/blocks lists in the written blockMeshDict")
+    verts = [[float(x) for x in m.groups()]
+             for m in re.finditer(r"\(\s*([-+0-9.eE]+)\s+([-+0-9.eE]+)\s+([-+0-9.eE]+)\s*\)", mv.group(1))]
+    out = []
+    for m in re.finditer(r"hex\s*\(([^)]*)\)", mb.group(1)):
+        ids = [int(x) for x in m.group(1).split()]
+        if len(ids) != 8 or max(ids) >= len(verts):
+            raise GenError("hex entry %r does not name 8 listed vertices" % m.group(0))
+        out.append(lat.cell(np.average([verts[i] for i in ids], axis=0)))
+    return out
+
+
+def observe_written(spec):
+    """Every operation chopped alike (count 2 on each axis), the addressed operation spec['delete'] deleted,
+    the mesh WRITTEN to a file; returns the lattice cells of the hex entries of the file, in file order, and
+    the operation ids they belong to."""
+    import tempfile
+    cb = _cb()
+    stack, centres, size = build_stack(spec)
+    lat = Lattice(centres, size)
+    cell_id = {tuple(lat.cell(o.center)): n for n, o in enumerate(stack.operations)}
+    lat.tol = 1e-6 * max(size, 1.0)  # the file carries 8 decimals
+    for o in stack.operations:
+        for a in range(3):
+            o.chop(a, count=2)
+    di, dj, dk = spec["delete"]
+    dele = stack.grid[dk][dj][di]
+    deleted = [n for n, o in enumerate(stack.operations) if o is dele]
+    mesh = cb.Mesh()
+    mesh.add(stack)
+    mesh.delete(dele)
+    fd, path = tempfile.mkstemp(prefix="c19_", suffix=".blockMeshDict")
+    os.close(fd)
+    try:
+        with warnings.catch_warnings():
+            warnings.simplefilter("ignore")
+            mesh.write(path, debug_path=None)
+        with open(path) as f:
+            text = f.read()
+    finally:
+        os.remove(path)
+    wcells = parse_written(text, lat)
+    return dict(n=len(stack.operations), deleted=deleted[0] if len(deleted) == 1 else 9999, cells=wcells,
+                ids=[cell_id.get(tuple(c), 9999) for c in wcells])
+
+
+def oracle_written(spec, ob):
+    nx, ny, nz = spec["nx"], spec["ny"], spec["nz"]
+    exp = sorted((i, j, k) for i in range(nx) for j in range(ny) for k in range(nz) if [i, j, k] != list(spec["delete"]))
+    got = sorted(tuple(c) for c in ob["cells"])
+    if got != exp:
+        missing = sorted(set(exp) - set(got))
+        extra = sorted(set(got) - set(exp)) + [c for c in set(got) if got.count(c) > 1]
+        return ["after delete(grid[%d][%d][%d]) the written file does not hold exactly the cells other than (%d,%d,%d): "
+                "missing %r, unexpected %r" % (spec["delete"][2], spec["delete"][1], spec["delete"][0], *spec["delete"],
+                                               missing[:6], extra[:6])]
+    return []
+
+
 # ------------------------------------------------------------------------------------------------
 # round sketches: topology, outer ring, grid / core / shell
 
@@ -423,7 +490,7 @@ def sketch_classes():
             out.append((cn + tag, (lambda H, cn=cn, s1=s1, s2=s2: getattr(S, cn)(
                 H.pt(0, 0, 0), H.pt(1, 0, 0), H.pt(0, 0.8, 0), H.len(s1), H.len(s2), H.len(0.2), H.len(0.25))),
                 lvl_spline(s1, s2, r1 + 0.2, r2 + 0.25)))
-    for n in (3, 4, 5, 6, 8, 12):
+    for n in RING_SEGMENTS:
         out.append(("Annulus_%d" % n, (lambda H, n=n: Annulus(H.pt(0, 0, 0), H.pt(1, 0, 0), H.nrm(), H.len(0.5), n)),
                     lvl_circle(1)))
     return out
@@ -507,6 +574,14 @@ def tab_sketch(name, ctor, level, pl):
                 shell=idx_list(shell, faces, name + ".shell"))
 
 
+def rings_why(grid, core, shell, what):
+    """the rows of a radial grid are rings, inner first: a prefix of the rows is the core, the rest the shell"""
+    for k in range(len(grid) + 1):
+        if [x for r in grid[:k] for x in r] == list(core) and [x for r in grid[k:] for x in r] == list(shell):
+            return []
+    return ["grid %r of the %s is not the core rows %r followed by the shell rows %r" % (grid, what, core, shell)]
+
+
 def sketch_ok_py(t):
     """The direct oracle for a sketch table (Python restatement of Properties/C19.v sketch_ok)."""
     nf = len(t["quads"])
@@ -528,6 +603,7 @@ def sketch_ok_py(t):
     flat = [f for row in t["grid"] for f in row]
     if sorted(flat) != list(range(nf)):
         why.append("grid %r does not address every face exactly once" % (t["grid"],))
+    why += rings_why(t["grid"], core, shell, "sketch")
     return why
 
 
@@ -545,7 +621,7 @@ def shape_classes():
     out.append(("Frustum_mid", lambda H: cb.Frustum(H.pt(0, 0, 0), H.pt(0, 0, 2), H.pt(1, 0, 0), H.len(0.4), H.len(0.9)), lvl_circle(1)))
     out.append(("Elbow", lambda H: cb.Elbow(H.pt(0, 0, 0), H.pt(1, 0, 0), H.vec(0, 0, 1), 1.1, H.pt(3, 0, 0), H.vec(0, 1, 0), H.len(0.7)), lvl_circle(1)))
     out.append(("Cylinder.chain", lambda H: cb.Cylinder.chain(cb.Cylinder(H.pt(0, 0, -1), H.pt(0, 0, 0), H.pt(1, 0, -1)), H.len(2)), lvl_circle(1)))
-    for n in (3, 8, 12):
+    for n in RING_SEGMENTS:
         out.append(("ExtrudedRing_%d" % n, (lambda H, n=n: cb.ExtrudedRing(H.pt(0, 0, 0), H.pt(0, 0, 2), H.pt(1, 0, 0), H.len(0.5), n)), lvl_circle(1)))
     out.append(("ExtrudedRing.expand", lambda H: cb.ExtrudedRing.expand(cb.Cylinder(H.pt(0, 0, 0), H.pt(0, 0, 2), H.pt(0.6, 0, 0)), H.len(0.4)), lvl_circle(1)))
     out.append(("Cylinder.fill", lambda H: cb.Cylinder.fill(cb.ExtrudedRing(H.pt(0, 0, 0), H.pt(0, 0, 2), H.pt(2, 0, 0), H.len(1.0), 8)), lvl_circle(1)))
@@ -641,7 +717,7 @@ def solid_classes():
             s = cb.RevolvedRing(H.pt(0, 0, 0), H.pt(1, 0, 0), face, n)
             return s, (lambda p: float(math.hypot(H.back(p)[1], H.back(p)[2])) / 2.0)
         return make
-    for n in (4, 8):
+    for n in RING_SEGMENTS:
         out.append(("RevolvedRing_%d" % n, rring(n)))
     return out
 
@@ -669,6 +745,7 @@ def lofted_ok_py(t):
     # shape.grid[r][c] is the operation over sketch_1.grid[r][c]
     if [[t["bottom"][o] for o in row] for row in t["grid"]] != t["sgrid"]:
         why.append("shape.grid does not mirror sketch_1.grid")
+    why += rings_why(t["grid"], core, shell, "shape")
     return why
 
 
@@ -691,6 +768,8 @@ def solid_ok_py(t):
     for o in core:
         if t["anyp"][o]:
             why.append("core operation %d touches the outer surface" % o)
+    if t["grid"] is not None:
+        why += rings_why(t["grid"], core, t["shell"], "shape")
     return why
 
 
@@ -830,8 +909,9 @@ class C19(Prop):
         "affine computation of the cell centres (tolerance 1e-8 x size); sizes DX=1, DY=0.6, tier 0.45.. are distinct",
         "outer boundary of each round sketch class: the harness' own level function (circle, square, stadium, "
         "super-ellipse with straight sides) evaluated on the points mapped back to canonical coordinates",
-        "tabulation of grid/core/shell of every round sketch / shape class (whole finite family of Appendix E; "
-        "Annulus/ring segment counts 3..12 sampled at 3,4,5,6,8,12)",
+        "tabulation of grid/core/shell of every round sketch / shape class (whole finite family of Appendix E, ring "
+        "segment counts 3..12) at the canonical arguments; other placements/sizes are sampled (tables must not change)",
+        "the harness' reader of the written blockMeshDict (vertices list, hex entries) used to locate written blocks",
         "stack correspondence is exhaustive over 1..5 x 1..5 x 1..4 x {extruded, revolved, transformed} x all axes x "
         "all indices -(n+1)..n at one placement per stack; other placements are sampled",
     ]
@@ -863,7 +943,8 @@ class C19(Prop):
                     "(operations named by the lattice cell containing their centre) with Model.stack_cells, and every "
                     "get_slice(axis, idx), idx in -(n+1)..n, with Model.get_slice applied to the implementation's grid of "
                     "operation ids (as sets; IndexError <-> None); delete/chop of an addressed operation against "
-                    "Model.assemble_ops/chop_op; round sketches/shapes at random similarity placements against the "
+                    "Model.assemble_ops/chop_op, both on Mesh.block_list after assemble and on the hex entries of the "
+                    "WRITTEN blockMeshDict; round sketches/shapes at random similarity placements against the "
                     "specification predicates of Model/C19_Spec.v.  non-trivial = a valid address on a stack with more "
                     "than one operation; distinct by (kind, size, axis, index)")
         cases = []      # (cid, text, describe)
@@ -947,6 +1028,20 @@ class C19(Prop):
                 res.oracle_failures.append(dict(spec, why=why[0], sig=sig_delete(why[0])))
             if len(res.samples) < 3:
                 res.samples.append(dict(spec=spec, blocks=[(o, list(c), a) for (o, c, a) in ob["blocks"]][:8]))
+            # the same deletion observed in the WRITTEN file (every 3rd case in the quick tier; needs >= 1 block left)
+            if ob["n"] > 1 and (not ctx.quick or (n % 3 == 0 and ob["n"] <= 36)):
+                wspec = dict(spec, what="written")
+                wob = observe_written(wspec)
+                cid += 1
+                descr[cid] = dict(wspec)
+                dcases.append((cid, "(%d, (%d, %d, 9999, 0, [%s]))" % (
+                    cid, wob["n"], wob["deleted"], "; ".join("(%d, [])" % o for o in wob["ids"]))))
+                res.evaluations += 1
+                res.count("written:" + kind)
+                res.distinct.add("written %s %dx%dx%d %r" % (kind, nx, ny, nz, spec["delete"]))
+                why = oracle_written(wspec, wob)
+                if why:
+                    res.oracle_failures.append(dict(wspec, why=why[0], sig="C19:delete:written"))
         for k in range(0, len(dcases), 60):
             chunk = dcases[k:k + 60]
             body = [CASE_HEADER, "Definition cases : list (nat * delete_case) := ["]
@@ -955,7 +1050,7 @@ class C19(Prop):
             body.append("Eval vm_compute in (map fst (filter (fun c => negb (delete_case_ok (snd c))) cases)).")
             shards.append(("delete_%d" % (k // 60), "\n".join(body) + "\n"))
         # (4) round sketches / shapes at random placements: specification predicates evaluated in Coq
-        nplace = ctx.n(6, 100)
+        nplace = ctx.n(4, 100)
         canon = getattr(self, "_tab", None) or tabulate_round(IDENT)
         rcases = []
         rdescr = {}
@@ -1083,7 +1178,15 @@ def sig_round(name, why):
         kind = "unavailable"
     if "grid" in why:
         kind = "grid"
-    return "C19:round:%s:%s" % (re.sub(r"_oval$|_\d+$", "", name), kind)
+    base = re.sub(r"_oval$|_\d+$", "", name)
+    fixed = {("HalfSplineDisk", "partition"): "C19:halfsplinedisk-grid", ("HalfSplineDisk", "grid"): "C19:halfsplinedisk-grid",
+             ("HalfSplineDisk", "shell"): "C19:halfsplinedisk-grid", ("HalfSplineDisk", "core"): "C19:halfsplinedisk-grid",
+             ("WrappedDisk", "partition"): "C19:wrappeddisk-core", ("RevolvedRing", "unavailable"): "C19:revolvedring-grid",
+             ("RevolvedRing", "grid"): "C19:revolvedring-grid", ("RevolvedRing", "partition"): "C19:revolvedring-grid"}
+    for wrap in ("RoundSolidShape(%s)",):
+        for (b, k), s in list(fixed.items()):
+            fixed[(wrap % b, k)] = s
+    return fixed.get((base, kind)) or "C19:round:%s:%s" % (base, kind)
 
 
 def replay_case(m, verbose=False):
@@ -1107,6 +1210,14 @@ def replay_case(m, verbose=False):
         if why:
             keep = {k: m[k] for k in ("what", "kind", "nx", "ny", "nz", "placement", "variant", "delete", "chop")}
             return dict(keep, why=why[0], sig=sig_delete(why[0]))
+    elif what == "written":
+        ob = observe_written(m)
+        why = oracle_written(m, ob)
+        if verbose:
+            print("implementation: cells of the hex entries of the written file", ob["cells"])
+        if why:
+            keep = {k: m[k] for k in ("what", "kind", "nx", "ny", "nz", "placement", "variant", "delete")}
+            return dict(keep, why=why[0], sig="C19:delete:written")
     elif what == "ragged":
         ob = observe_ragged(m)
         bad = [s for s in ob["slices"] if s["err"]]
